@@ -144,7 +144,7 @@ def matcher_matches():
         property_clauses={"no_component_after_a_halt": "C13", "every_component_before_a_halt": "C13,C01", "at_most_once": "C01,C13",
                           "skip_means_no_match": "C13", "skip_does_not_outlive_line": "C13", "stop_midline_means_no_match": "C13",
                           "stop_as_final_component_keeps_fold": "C13", "and_or_fold": "C01", "result_is_bool": "C01",
-                          "errors_handled_on_every_exit": "C05", "validity_monotone": "C04"},
+                          "errors_handled_on_every_exit": "C05,C04", "validity_monotone": "C04"},
         doc={"no_component_after_a_halt": "C13: 'When stop() fires on a line no later component of that line ... is evaluated'; 'when skip() fires ... no later component of it runs'",
              "skip_means_no_match": "C13: 'when skip() fires the line is not matched'",
              "skip_does_not_outlive_line": "C13: '... but the next line proceeds normally'",
